@@ -22,7 +22,7 @@ JOBS = {'quick': 2, 'thorough': 16}
 REQUIRED_MONITORS = ('tiling_vs_reference', 'random_access_vs_reference', 'iterator_vs_reference')
 REQUIRED_CLASSES = ('layout:blocks', 'layout:alternating', 'layout:same-name-different-size',
                     'layout:same-name-size-different-atoms', 'layout:single-atom', 'layout:giant', 'layout:digit-names',
-                    'layout:resid-wrap', 'layout:constant-name-increasing-number', 'vel:yes', 'vel:no', 'vel:some-atoms-at-rest',
+                    'layout:resid-wrap', 'layout:constant-name-increasing-number', 'vel:yes', 'vel:no', 'vel:some-atoms-at-rest', 'box:triclinic-lower', 'box:triclinic-general', 'atom-numbers:restarts', 'atom-numbers:arbitrary', 'atom-numbers:offset',
                     'op:index', 'op:negative-index', 'op:slice', 'op:slice-negative-step', 'op:next', 'op:out-of-range',
                     'object:fresh-never-walked', 'object:walked-completely-before')
 RULE = ('files: residue layout class x residue sizes 1..12 x 1..400 residues (thorough: up to 5000) x velocities; access '
@@ -104,6 +104,12 @@ def gen_file(rng, layout, nres_max):
     seq = seq[:nres]
     records = []
     atomid = 1
+    # the atom-number column: the running count from 1 (usual), a running count that starts elsewhere, numbers that
+    # restart at 1 now and then (concatenated chains / fragments), or arbitrary numbers
+    idmode = ['running', 'running', 'offset', 'restarts', 'arbitrary'][int(rng.integers(0, 5))]
+    _rest.append(idmode)
+    if idmode == 'offset':
+        atomid = int(rng.integers(2, 90000))
     if layout == 'resid-wrap':
         resid = 99999 - int(rng.integers(0, min(nres, 30) + 1))
     elif layout == 'digit-names':
@@ -120,8 +126,10 @@ def gen_file(rng, layout, nres_max):
             if vel and rng.random() < 0.08:
                 v = (0.0, 0.0, 0.0)           # an atom at rest (frozen group, wall, velocities not generated yet)
                 rest[0] += 1
-            records.append((resid % 100000, name, a, atomid % 100000, xyz, v))
+            records.append((resid % 100000, name, a, (atomid if idmode != 'arbitrary' else int(rng.integers(0, 100000))) % 100000, xyz, v))
             atomid += 1
+        if idmode == 'restarts' and rng.random() < 0.15:
+            atomid = 1
         if layout == 'digit-names':
             # numbers and names chosen so that number||name concatenations can collide
             resid = int(rng.choice([1, 11, 12, 2, 112, 21]))
@@ -166,6 +174,17 @@ def run_case(ctx, case):
     records, vel = gen_file(rng, layout, nres_max)
     path = os.path.join(_tmp['dir'], f's{os.getpid()}.gro')
     box = rng.uniform(3, 9, 3)
+    bcls = ['vector', 'triclinic-lower', 'triclinic-general'][i % 3]
+    if bcls != 'vector':
+        # nine numbers on the box line: the GROMACS shape (v1(y) = v1(z) = v2(z) = 0), or all six off-diagonal terms
+        # present and pairwise different
+        m = np.diag(box)
+        off = np.round(rng.uniform(0.1, 2.0, 6) * rng.choice([-1, 1], 6), 5)
+        m[1, 0], m[2, 0], m[2, 1] = off[0], off[1], off[2]
+        if bcls == 'triclinic-general':
+            m[0, 1], m[0, 2], m[1, 2] = off[3], off[4], off[5]
+        box = m
+    ctx.hit('box:' + bcls)
     title = 'generated system %d' % i
     gen.write_gro(path, title, records, box)
     truth = ref.ref_gro_read(path)
@@ -176,6 +195,8 @@ def run_case(ctx, case):
     if _rest[0]:
         ctx.hit('vel:some-atoms-at-rest')
         _rest[0] = 0
+    while len(_rest) > 1:
+        ctx.hit('atom-numbers:' + _rest.pop())
     w = {'layout': layout, 'n_residues': len(want), 'file_head': open(path).read()[:900]}
     try:
         s = SystemGro(path)
